@@ -305,6 +305,9 @@ def r5_mapping_laws(ctx: Ctx) -> None:
     """each byte goes to the offset the active mapping assigns, code past a bank end continues in the next bank's window
     (the C04.R1 / R2 / R5 obligations: built-in layouts, bank lookup construction, offset formulas and address advance)"""
     from .c04 import r1_builtin_maps, r2_mirror_construction, r5_formula_normal_form
+    from .c12 import r2_mapping_choices_total
+
+    r2_mapping_choices_total(ctx)  # "the active address mapping": the mapping name given selects the bus of that name
 
     r1_builtin_maps(ctx)
     r2_mirror_construction(ctx)
